@@ -25,4 +25,20 @@ def run(env: Env) -> Outcome:
                 "distinct by (spec, schedule)")
     suite.direct_corr(env, out, env.budget(3000, 60000))
     suite.live_runs(env, out, env.budget(400, 8000), [monitors.mon_c35], extra_specs=suite.load_corpus("C35"))
+
+    def _ire_consumer(spec: dict, rng) -> dict:
+        """a step RETURNS an InputRequiredEvent subclass and another step, with zero-delay retries, CONSUMES it and fails once or
+        twice: the event is then carried by re-queue commands too, and must still be published exactly once"""
+        plain = [s for s in spec["steps"] if s.get("role") != "handler" and s["script"] and s["script"][-1][0] == "ret"
+                 and not any(a[0] in ("collect", "wait") for a in s["script"])]
+        if not plain or any(s["name"] == "s20" for s in spec["steps"]):
+            return spec
+        src = rng.choice(plain)
+        src["script"][-1] = ["ret", rng.choice(["2", "2", "13"])]
+        spec["steps"].append({"name": "s20", "accepts": [2, 13], "nw": rng.randint(1, 2),
+                              "retry": rng.choice([{"kind": "attempts", "n": rng.randint(2, 4), "wait": 0}, {"kind": "legacy", "n": 3, "wait": 0}, None]),
+                              "script": ([["gate"]] if rng.random() < 0.3 else []) + [["fail_until", rng.randint(1, 2), 4], ["ret", rng.choice(["none", "stop"])]]})
+        return spec
+
+    suite.live_runs(env, out, env.budget(120, 2400), [monitors.mon_c35], gen_kwargs={"family": "general"}, mutate_spec=_ire_consumer)
     return out
